@@ -417,6 +417,11 @@ func Generate(seed uint64, profile string, faults bool) *Scenario {
 		mix = map[string]int{"schedule": 10, "cancel": 5, "reload": 1}
 		badVar = 80
 		cfg.WSettle = 1
+		if g.p(200) {
+			// states reached through a crash and a restart from the last snapshot are reachable states too
+			cfg.Store = "mem"
+			cfg.WCrash = 1
+		}
 	case "C04":
 		o.maxTasks = 4
 		o.cyclePermille = 0
@@ -473,6 +478,7 @@ func Generate(seed uint64, profile string, faults bool) *Scenario {
 		cfg.HTTP = true
 		cfg.Store = "mem"
 		o.retention = true
+		cfg.WCrash = g.oneOf(0, 0, 1)
 	case "C10":
 		cfg.Store = "json"
 		if g.p(300) {
@@ -515,7 +521,7 @@ func Generate(seed uint64, profile string, faults bool) *Scenario {
 		cfg.Readers = true
 		cfg.NoOracle = true
 		o.retention = true
-		mix = map[string]int{"schedule": 8, "cancel": 3, "read": 3, "list": 3, "iterate": 5, "save": 5, "reload": 2}
+		mix = map[string]int{"schedule": 8, "cancel": 6, "read": 3, "list": 3, "iterate": 5, "save": 5, "reload": 2}
 		nClients = 2 + g.n(3)
 		shutdowns = g.n(2)
 		o.delayPermille = 200
